@@ -59,7 +59,19 @@ func (d D) Y() string {
 var data = []interface{}{
 	D{"<x>&\"'"},
 	D{"javascript:alert(1)"},
+	&D{"<p>&"},
+	&PS{S: newStr("<q>&")},
 }
+
+// PS has a pointer-typed field, so that the sanitizers receive a pointer (they dereference it by reflection).
+type PS struct{ S *string }
+
+func (d *PS) Y() string {
+	vs.Yield(vs.KWrite)
+	return ""
+}
+
+func newStr(s string) *string { return &s }
 
 const baseDefs = `{{define "h"}}{{.Y}}{{.S}}{{.Y}}{{end}}` +
 	`{{define "a"}}<p>{{template "h" .}}</p>{{end}}` +
@@ -100,6 +112,11 @@ func scenarios() []scenario {
 			{{Kind: "execroot", Data: 0}},
 			{{Kind: "roottohtml", Data: 0}, {Kind: "execroot", Data: 1}},
 			{{Kind: "exec", Name: "cb", Data: 0}},
+		}},
+		{"S9-pointer-data", baseDefs, [][]call{
+			{{Kind: "exec", Name: "a", Data: 3}},
+			{{Kind: "tohtml", Name: "b", Data: 3}, {Kind: "exec", Name: "c", Data: 2}},
+			{{Kind: "execroot", Data: 3}},
 		}},
 		{"S7-execute-same-root-first-and-repeated", baseDefs, [][]call{
 			{{Kind: "execroot", Data: 0}},
@@ -347,6 +364,48 @@ func main() {
 		fmt.Fprintln(os.Stderr, "unknown scenario")
 		os.Exit(2)
 	}
+	if *free > 0 {
+		// The free-running pass starts in a cold process: state that the library initialises on first use
+		// (caches keyed by type, pools) is first touched by concurrent calls, as it would be in a server. The
+		// sequential reference vectors are computed afterwards.
+		start := time.Now()
+		rep := report{Scenario: sc.Name, Race: os.Getenv("VSCHED_RACE_LOG") != "", Bound: -1}
+		vectors := map[string]bool{}
+		lastLog := raceLogSize()
+		for i := 0; i < *free; i++ {
+			t := build(sc)
+			res := newRes(sc)
+			var wg sync.WaitGroup
+			for _, b := range bodies(sc, t, res) {
+				wg.Add(1)
+				go func(b func()) { defer wg.Done(); b() }(b)
+			}
+			wg.Wait()
+			rep.Schedules++
+			vectors[vecKey(res)] = true
+			if sz := raceLogSize(); sz > lastLog {
+				rep.Races = append(rep.Races, raceRep{int64(i), nil, raceLogTail(lastLog)})
+				lastLog = sz
+			}
+		}
+		seq := sequentialVectors(sc)
+		rep.SeqVectors = len(seq)
+		var vs []string
+		for v := range vectors {
+			vs = append(vs, v)
+		}
+		sort.Strings(vs)
+		for _, v := range vs {
+			if !seq[v] && len(rep.Violations) < 3 {
+				rep.Violations = append(rep.Violations, violation{Kind: "not-sequential", Detail: "free-running execution: result vector " + v + " is not produced by any sequential order"})
+			}
+		}
+		rep.DistinctVectors = len(vectors)
+		rep.WallS = time.Since(start).Seconds()
+		b, _ := json.Marshal(rep)
+		fmt.Println(string(b))
+		return
+	}
 	seq := sequentialVectors(sc)
 	if *replayS != "" {
 		var sched []int8
@@ -360,37 +419,6 @@ func main() {
 		if !seq[x.vector] || x.res.Deadlock {
 			os.Exit(1)
 		}
-		return
-	}
-	if *free > 0 {
-		start := time.Now()
-		rep := report{Scenario: sc.Name, SeqVectors: len(seq), Race: os.Getenv("VSCHED_RACE_LOG") != "", Bound: -1}
-		vectors := map[string]bool{}
-		lastLog := raceLogSize()
-		for i := 0; i < *free; i++ {
-			t := build(sc)
-			res := newRes(sc)
-			var wg sync.WaitGroup
-			for _, b := range bodies(sc, t, res) {
-				wg.Add(1)
-				go func(b func()) { defer wg.Done(); b() }(b)
-			}
-			wg.Wait()
-			rep.Schedules++
-			v := vecKey(res)
-			vectors[v] = true
-			if !seq[v] && len(rep.Violations) < 3 {
-				rep.Violations = append(rep.Violations, violation{Kind: "not-sequential", Detail: "free-running execution: result vector " + v + " is not produced by any sequential order"})
-			}
-			if sz := raceLogSize(); sz > lastLog {
-				rep.Races = append(rep.Races, raceRep{int64(i), nil, raceLogTail(lastLog)})
-				lastLog = sz
-			}
-		}
-		rep.DistinctVectors = len(vectors)
-		rep.WallS = time.Since(start).Seconds()
-		b, _ := json.Marshal(rep)
-		fmt.Println(string(b))
 		return
 	}
 	start := time.Now()
